@@ -31,6 +31,7 @@
 #include <parmcb/forestindex.hpp>
 #include <parmcb/spvecgf2.hpp>
 #include <parmcb/util.hpp>
+#include <parmcb/detail/verif.hpp>
 
 namespace parmcb {
 
@@ -52,10 +53,13 @@ namespace parmcb {
                 std::set<Edge> signed_edges;
                 convert_edges(support, std::inserter(signed_edges, signed_edges.end()), forest_index);
                 if (signed_edges.size() == 1) {
+                    PARMCB_VERIF_PROBE(signed_single_edge);
                     return find_single_edge(*signed_edges.begin());
                 } else if (signed_edges.size() >= boost::num_vertices(g)) {
+                    PARMCB_VERIF_PROBE(signed_all_vertices);
                     return find_all_vertices(signed_edges);
                 } else {
+                    PARMCB_VERIF_PROBE(signed_hidden_edges);
                     return find_less_than_vertices(signed_edges);
                 }
             }
